@@ -1,7 +1,7 @@
 (* C10: the cases written by the correspondence harness, over all mechanism models (definitions only).
    `C0` wraps the cases of Model.v (ring, fixed queue, FastVec with drop-counting elements). *)
 From ZV.Common Require Import Base Run.
-From ZV.C10 Require Import Model ModelValVec32 ModelArena ModelStrVec ModelFixedLen ModelFastVecCopy ModelCacheVec.
+From ZV.C10 Require Import Model ModelValVec32 ModelArena ModelStrVec ModelFixedLen ModelFastVecCopy ModelCacheVec ModelBitPacked.
 Open Scope N_scope.
 
 Inductive case_t : Type :=
@@ -17,7 +17,9 @@ Inductive case_t : Type :=
 (* memory::cache::CacheAlignedVec<T>: counted (false = Copy element type), size_of::<T>(), requested capacity *)
 | CCav (counted : bool) (sz c : N) (ops : list (aop N)) (expect : list (list Z))
 (* BumpVec<T>: capacity *)
-| CBump (c : N) (ops : list (bop N)) (expect : list (list Z)).
+| CBump (c : N) (ops : list (bop N)) (expect : list (list Z))
+(* BitPackedStringVec32 (false) / 64 (true) *)
+| CBitP (w64 : bool) (ops : list pop) (expect : list (list Z)).
 
 Definition ok (c : case_t) : bool :=
   match c with
@@ -28,4 +30,5 @@ Definition ok (c : case_t) : bool :=
   | CVecC esz c ops e => eqb_llz (fvc_trace esz (if c =? 0 then fv_new else fv_with_capacity c) ops) e
   | CCav counted sz c ops e => eqb_llz (cav_trace0 counted sz c ops) e
   | CBump c ops e => eqb_llz (bv_trace0 c ops) e
+  | CBitP w64 ops e => eqb_llz (bpv_trace w64 bpv_new ops) e
   end.
